@@ -192,6 +192,51 @@ class LexModel:
             elif op in (sre_parse.ASSERT, sre_parse.ASSERT_NOT):
                 yield from self._walk(av[1])
 
+    def lookahead_sequences(self, alt: Alt) -> list[list]:
+        """Linearise the trailing look-ahead of ``alt``: every way through its branches as a
+        list of atoms — ``("lit", ch)``, ``("hyphen?", group name)`` for a named ``-?`` group,
+        ``("end", "line")`` for ``$`` (also matches before a final newline) / ``("end", "string")`` for ``\\Z`` and ``("other", op)`` for anything else."""
+        parsed = sre_parse.parse(alt.pattern, re.DOTALL)
+        byidx = {v: k for k, v in parsed.state.groupdict.items()}
+        items = list(parsed)
+        if not items or items[-1][0] is not sre_parse.ASSERT:
+            return []
+
+        def hyphen_group(op, av):
+            if op is not sre_parse.SUBPATTERN:
+                return None
+            gid, _a, _d, sub = av
+            sub = list(sub)
+            if len(sub) == 1 and sub[0][0] in (sre_parse.MAX_REPEAT, sre_parse.MIN_REPEAT):
+                lo, hi, inner = sub[0][1]
+                inner = list(inner)
+                if (lo, hi) == (0, 1) and len(inner) == 1 and inner[0] == (sre_parse.LITERAL, ord("-")):
+                    return byidx.get(gid) or "?"
+            return None
+
+        def seqs(sub) -> list[list]:
+            acc: list[list] = [[]]
+            for op, av in sub:
+                g = hyphen_group(op, av)
+                if g is not None:
+                    parts = [[("hyphen?", g)]]
+                elif op is sre_parse.LITERAL:
+                    parts = [[("lit", chr(av))]]
+                elif op is sre_parse.AT:
+                    parts = [[("end", "string" if av is sre_parse.AT_END_STRING else "line" if av is sre_parse.AT_END else str(av))]]
+                elif op is sre_parse.SUBPATTERN:
+                    parts = seqs(av[3])
+                elif op is sre_parse.BRANCH:
+                    parts = [x for b in av[1] for x in seqs(b)]
+                else:
+                    parts = [[("other", str(op))]]
+                acc = [a + p_ for a in acc for p_ in parts]
+                if len(acc) > 256:
+                    raise AnchorMissing(f"lexer rule {alt.kind}: look-ahead has too many alternatives to enumerate")
+            return acc
+
+        return seqs(items[-1][1][1])
+
     def param_of(self, placeholder: str) -> str:
         for p, ph in self.placeholder.items():
             if ph == placeholder:
